@@ -38,6 +38,7 @@ pub fn mutant_universe(mut u: Universe, seed: u64) -> Universe {
     u.label = format!("m{}", u.label);
     let n_subjects = u.subjects.len();
     vmodel::mutate::add_mutants(&mut u, &mut src, 2, 2);
+    vmodel::mutate::add_align_pairs(&mut u, 12);
     // one dedicated pair per layout-only mutant below `Bound`, whose alignment hash does not recurse (O9)
     let layout_mutants: Vec<(usize, usize)> = u
         .adts
@@ -57,10 +58,26 @@ pub fn mutant_universe(mut u: Universe, seed: u64) -> Universe {
         u.subjects.push(b);
         u.pairs.push((u.subjects.len() - 2, u.subjects.len() - 1));
     }
+    // the same definition with a different value of one const generic argument
+    for si in 0..n_subjects {
+        let t = u.subjects[si].clone();
+        for m in vmodel::mutate::const_value_variants(&u, &t).into_iter().take(2) {
+            let ti = match u.subjects.iter().position(|x| *x == m) {
+                Some(p) => p,
+                None => {
+                    u.subjects.push(m);
+                    u.subjects.len() - 1
+                }
+            };
+            if ti != si {
+                u.pairs.push((si, ti));
+            }
+        }
+    }
     // near misses of built-in compositions
     for si in 0..n_subjects.min(160) {
         let t = u.subjects[si].clone();
-        for m in vmodel::mutate::builtin_near_misses(&u, &t).into_iter().take(2) {
+        for m in vmodel::mutate::builtin_near_misses(&u, &t).into_iter().take(3) {
             let ti = match u.subjects.iter().position(|x| *x == m) {
                 Some(p) => p,
                 None => {
